@@ -46,6 +46,8 @@ type world struct {
 	MN         common.Address   // main node contract (operator-node tx)
 	Auth       common.Address   // authority whose AUTH signature the attacker holds
 	AuthCD     map[common.Address][]byte
+	Auths      []common.Address            // authorities with harness-held keys: Auths[0] holds 10 tokens, Auths[1] 20000
+	AuthCDs    []map[common.Address][]byte // per authority: invoker contract -> AUTH calldata (v, r, s, commit) signed by its key
 	base       []common.Address
 	minerId    [][]byte // every miner id ever applied in this world
 	heights    map[uint64]bool
@@ -59,7 +61,7 @@ type world struct {
 
 func newWorld(r *hx.Rng) *world {
 	w := &world{World: nx.NewWorld(), heights: map[uint64]bool{}, h: 20, AuthCD: map[common.Address][]byte{}}
-	for i := 0; i < 4; i++ {
+	for i := 0; i < 5; i++ {
 		w.S = append(w.S, nx.Addr(1+i))
 	}
 	w.T = []common.Address{nx.Addr(0x11), nx.Addr(0x12)}
@@ -74,7 +76,24 @@ func newWorld(r *hx.Rng) *world {
 		w.AuthCD[c] = cd
 		w.Auth = a
 	}
+	// real secp256k1 AUTH signatures of third-party authorities (distinct from every origin) over the message opAuth
+	// checks (0x03 || chainId || invoker || commit), one per invoker contract
+	for k, key := range []byte{7, 9} {
+		pk := make([]byte, 32)
+		pk[31] = key
+		m := map[common.Address][]byte{}
+		var au common.Address
+		for _, c := range append(append([]common.Address{}, w.C...), w.KM) {
+			m[c], au = nx.AuthSig(pk, common.GetChainId(100), c, commit)
+		}
+		w.Auths = append(w.Auths, au)
+		w.AuthCDs = append(w.AuthCDs, m)
+		_ = k
+	}
 	adb := w.ADB
+	adb.SetBalance(w.Auths[0], nx.Tokens(10))
+	adb.SetBalance(w.Auths[1], nx.Tokens(20000))
+	adb.SetBalance(w.S[4], nx.Wei("0.05")) // can pay fee and gas, poorer than both authorities
 	adb.SetBalance(w.S[0], nx.Tokens(1000000))
 	adb.SetBalance(w.S[1], nx.Tokens(5000))
 	adb.SetBalance(w.S[2], nx.Wei("0.0015"))
@@ -99,6 +118,7 @@ func newWorld(r *hx.Rng) *world {
 	w.base = append(w.base, w.S...)
 	w.base = append(w.base, w.T...)
 	w.base = append(w.base, w.C...)
+	w.base = append(w.base, w.Auths[1])
 	w.base = append(w.base, w.KM, w.MN, w.Auth, nx.TokenContract, common.ValidatorDBAddress, common.ProposerDBAddress, nx.Addr(0x41))
 	w.Boundary()
 	return w
@@ -327,20 +347,46 @@ func (w *world) genProg(r *hx.Rng, self common.Address, depth int) prog {
 			w.valueExpr(r, a, &d)
 			a.PushAddr(to).PushU(0xffffff).Op(nx.CALLCODE, nx.POP)
 			d = append(d, "callcode:"+short(w, to))
-		default: // AUTH + AUTHCALL: value is taken from the tx origin
-			cd := w.AuthCD[self]
+		default: // AUTH + AUTHCALL: the call is made in the authority's name, the value is taken from the tx origin
+			k := r.Intn(len(w.Auths))
+			cd := w.AuthCDs[k][self]
 			if cd == nil {
 				continue
 			}
 			for off := 0; off < 128; off += 32 {
 				a.PushBytes(cd[off : off+32]).PushU(uint64(off)).Op(nx.MSTORE)
 			}
-			a.PushU(128).PushU(0).PushAddr(w.Auth).Op(nx.AUTH, nx.POP)
+			a.PushU(128).PushU(0).PushAddr(w.Auths[k]).Op(nx.AUTH, nx.POP)
 			to := w.anyAddr(r, self)
 			a.PushU(0).PushU(0).PushU(0).PushU(0).PushU(0)
-			w.valueExpr(r, a, &d)
+			// boundary amounts around the two balances that could be consulted: the sponsor's (origin) and the authority's
+			switch r.Intn(9) {
+			case 0:
+				a.PushU(0)
+				d = append(d, "v=0")
+			case 1:
+				a.PushU(1)
+				d = append(d, "v=1wei")
+			case 2:
+				a.Op(nx.ORIGIN, nx.BALANCE)
+				d = append(d, "v=balance(origin)")
+			case 3:
+				a.PushU(1).Op(nx.ORIGIN, nx.BALANCE, nx.ADD)
+				d = append(d, "v=balance(origin)+1")
+			case 4:
+				a.PushAddr(w.Auths[k]).Op(nx.BALANCE)
+				d = append(d, "v=balance(authority)")
+			case 5:
+				a.PushU(1).PushAddr(w.Auths[k]).Op(nx.BALANCE, nx.ADD)
+				d = append(d, "v=balance(authority)+1")
+			case 6:
+				a.Push(nx.Wei("0.25"))
+				d = append(d, "v=0.25")
+			default:
+				w.valueExpr(r, a, &d)
+			}
 			a.PushAddr(to).PushU(0).PushU(0).Op(nx.AUTHCALL, nx.POP)
-			d = append(d, "authcall:"+short(w, to))
+			d = append(d, fmt.Sprintf("authcall[auth%d]:%s", k, short(w, to)))
 		}
 	}
 	switch k := r.Intn(12); {
@@ -369,6 +415,9 @@ func (w *world) genProg(r *hx.Rng, self common.Address, depth int) prog {
 
 func short(w *world, a common.Address) string {
 	names := map[common.Address]string{common.FeeAccount: "fee", w.KM: "KM", w.MN: "MN", w.Auth: "auth"}
+	if len(w.Auths) == 2 {
+		names[w.Auths[1]] = "auth1"
+	}
 	for i, x := range w.S {
 		names[x] = fmt.Sprintf("S%d", i)
 	}
@@ -461,7 +510,7 @@ var gasZoo = []string{"", "0", "3000000", "30000000", "700000", "100000", "21000
 
 // generate one tx. installed: the block already holds a tx that installed contract code (the programs are shared).
 func (w *world) generate(r *hx.Rng, installed *bool) gen {
-	src := w.S[[]int{0, 0, 0, 0, 0, 0, 0, 1, 1, 1, 1, 1, 2, 3}[r.Intn(14)]]
+	src := w.S[[]int{0, 0, 0, 0, 0, 0, 0, 1, 1, 1, 1, 1, 2, 3, 4, 4, 4}[r.Intn(17)]]
 	srcHex := nx.AddrHex(src)
 	k := r.Intn(100)
 	switch {
@@ -622,7 +671,10 @@ func (w *world) contractModel(src common.Address, cp cparams) func(m *mctx) (str
 				if e.A != src {
 					return "", false // AUTHCALL's sponsor is the tx origin
 				}
-				evs = append(evs, fmt.Sprintf("A %d%%N %d%%N %s", m.idx(e.A), m.idx(e.B), zlit(e.V)))
+				evs = append(evs, fmt.Sprintf("A %d%%N %d%%N %d%%N %s", m.idx(e.A), m.idx(e.Auth), m.idx(e.B), zlit(e.V)))
+				if e.V.Sign() != 0 {
+					m.results = append(m.results, zlit(e.Res)) // did the value move
+				}
 			case "K":
 				evs = append(evs, fmt.Sprintf("K %d%%N %d%%N", m.idx(e.A), m.idx(e.B)))
 			case "S":
@@ -999,7 +1051,12 @@ func (w *world) step(r *hx.Rng, res *hx.Result, cs *hx.Cases) {
 			w.ADB.SetBalance(w.S[1], nx.Tokens(5000))
 		}
 	}
-	w.ADB.SetNonce(w.Auth, 0) // AUTHCALL bumps the authority's nonce; the generated programs always pass nonce 0
+	for _, au := range w.Auths { // AUTHCALL bumps the authority's nonce; the generated programs always pass nonce 0
+		w.ADB.SetNonce(au, 0)
+	}
+	if w.ADB.GetBalance(w.S[4]).Cmp(nx.Wei("0.01")) < 0 && r.Intn(4) > 0 {
+		w.ADB.SetBalance(w.S[4], nx.Wei("0.05"))
+	}
 	nTx := []int{1, 1, 1, 1, 1, 2, 2, 3, 4, 0}[r.Intn(10)]
 	if jumped && r.Intn(2) == 0 {
 		nTx = 0
@@ -1158,7 +1215,11 @@ func (w *world) step(r *hx.Rng, res *hx.Result, cs *hx.Cases) {
 		}
 		for _, e := range info.Trace {
 			switch e.Kind {
-			case "V", "K", "A":
+			case "A":
+				idx(e.A)
+				idx(e.B)
+				idx(e.Auth)
+			case "V", "K":
 				idx(e.A)
 				idx(e.B)
 			case "St", "Us", "Ua":
